@@ -42,6 +42,10 @@ func genSource(s spec) genOut {
 		return genFixed(s)
 	case "deep":
 		return genDeep(s)
+	case "restrict":
+		return genRestrict(s)
+	case "lex":
+		return genLex(s)
 	}
 	return genOut{Src: "", Class: "unknown-family:" + s.Fam}
 }
